@@ -211,6 +211,66 @@ OUT_NAMES = ["x", "y", "z", "t"]
 LATTICE_MODES = ["constant", "nearest", "reflect", "mirror", "grid-wrap", "grid-constant"]
 
 
+# ---------------------------------------------------------------- source storage (memory layout x dtype)
+# Every entry point must see the same *logical* array whatever its storage: the expectations are computed from
+# `values` (float64, C order), the implementation is handed `stored`.
+LAYOUTS = ["C", "C", "F", "swapped-axes", "strided", "reversed", "readonly"]
+DTYPES = ["float64", "float64", "float64", "float32", "int16", "int64", "uint8"]
+
+
+def relayout(a, kind):
+    """array equal to `a` element by element, stored differently"""
+    a = np.asarray(a)
+    nd = a.ndim
+    if kind == "F":
+        return np.asfortranarray(a)
+    if kind == "swapped-axes" and nd >= 2:      # neither C- nor F-contiguous for nd >= 3, F for nd == 2
+        return np.ascontiguousarray(np.swapaxes(a, 0, nd - 1)).swapaxes(0, nd - 1)
+    if kind == "strided":                        # every second element of a larger block
+        big = np.zeros(tuple(2 * n for n in a.shape), dtype=a.dtype)
+        view = big[(slice(None, None, 2),) * nd]
+        view[...] = a
+        return view
+    if kind == "reversed":                       # negative strides on every axis
+        rev = (slice(None, None, -1),) * nd
+        return np.ascontiguousarray(a[rev])[rev]
+    c = np.array(a, order="C", copy=True)
+    if kind == "readonly":
+        c.flags.writeable = False
+    return c
+
+
+def draw_source(rng, shape, plain=False, dtypes=DTYPES, layouts=LAYOUTS):
+    """(values float64 C-order, stored array, layout, dtype name): integers in -9..9 (0..18 for unsigned), exact in every dtype"""
+    dtype = "float64" if plain else str(rng.choice(dtypes))
+    layout = "C" if plain else str(rng.choice(layouts))
+    lo, hi = (0, 19) if dtype.startswith("u") else (-9, 10)
+    values = rng.integers(lo, hi, shape).astype(float)
+    stored = relayout(values.astype(dtype), layout)
+    assert np.array_equal(stored, values)
+    return values, stored, layout, dtype
+
+
+def plain_storage(layout, dtype):
+    return layout == "C" and dtype == "float64"
+
+
+def storage_suffix(layout, dtype, rerun_plain_ok):
+    """'' or '/source-storage-dependent': the failing call passes when the same values are handed over as a plain
+    C-contiguous float64 array"""
+    if plain_storage(layout, dtype):
+        return ""
+    try:
+        return "/source-storage-dependent" if rerun_plain_ok() else ""
+    except Exception:  # noqa
+        return ""
+
+
+def int_cval(dtype, cval):
+    """integer-typed sources give integer-typed outputs (scipy / cast_array round): use integral fill values there"""
+    return float(np.ceil(cval)) if np.dtype(dtype).kind in "iu" else cval
+
+
 def guarded(ck, sig, rep, fn):
     """run one implementation call of an oracle; an exception is a failure of that oracle, not of the harness"""
     try:
@@ -242,7 +302,7 @@ def sec_resample(ck, T):
         nt = n if rng.random() < 0.8 else n - 1
         sshape = tuple(int(s) for s in rng.integers(3, 6 if n < 4 else 4, n))
         tshape = tuple(int(s) for s in rng.integers(2, 6 if n < 4 else 4, nt))
-        data = rng.integers(-9, 10, sshape).astype(float)
+        data, stored, layout, dtype = draw_source(rng, sshape, plain=it < 12)
         S = rand_aff_exact(rng, n)
         Tw = rand_aff_exact(rng, n) if rng.random() < 0.75 else np.eye(n + 1)
         g2g = rng.random() < 0.6
@@ -259,11 +319,13 @@ def sec_resample(ck, T):
         twnames = wnames if rng.random() < 0.8 else [str(x) for x in rng.permutation(OUT_NAMES[:n])]
         icm = AffineTransform(CS(in_names, "voxels"), CS(wnames, "world"), S)
         target = AffineTransform(CS(tnames, "tvox"), CS(twnames, "tworld"), G)
-        img = Image(data, icm)
+        img = Image(stored, icm)
         form = str(rng.choice(["tuple", "matrix", "affobj", "callable", "img2img"]))
         order = int(rng.integers(0, 6))
         mode = str(rng.choice(LATTICE_MODES + ["wrap"]))
-        cval = float(rng.integers(-3, 4)) * 0.5
+        cval = int_cval(dtype, float(rng.integers(-3, 4)) * 0.5)
+        if dtype.startswith("u"):
+            cval = abs(cval)
         Sinv = icm.inverse().affine
         if form == "img2img":
             # resample_img2img: identity world map, so make the target consistent with it
@@ -322,13 +384,16 @@ def sec_resample(ck, T):
                     {"mapping_form": form, "source_affine": S.tolist(), "target_affine": G.tolist(), "mapping_affine": Tw.tolist(),
                      "source_shape": sshape, "target_shape": tshape, "order": order, "mode": mode, "cval": cval})
             continue
-        key = ("resample", form, n, nt, S.tobytes(), G.tobytes(), Tw.tobytes(), order, mode)
+        key = ("resample", form, n, nt, S.tobytes(), G.tobytes(), Tw.tobytes(), order, mode, layout, dtype)
+        ck.dist["storage:%s:%s" % (layout, dtype)] = ck.dist.get("storage:%s:%s" % (layout, dtype), 0) + 1
+        if not np.array_equal(stored, data):
+            ck.fail("resample/mutates-source-data", "resample changed the source image's data array", {"source_layout": layout, "source_dtype": dtype})
         ck.count(key, nontrivial=not (np.array_equal(S, np.eye(n + 1)) and np.array_equal(G, np.eye(n + 1))),
                  bucket="resample:%s:%s" % (form, "raises" if err else ("grid" if g2g else "dyadic")))
         rep = {"entry": "resample_img2img" if form == "img2img" else "resample", "mapping_form": form, "source_affine": S.tolist(),
                "target_affine": G.tolist(), "mapping_affine": Tw.tolist(), "source_shape": sshape, "target_shape": tshape,
                "in_names": in_names, "world_names": wnames, "target_in_names": tnames, "target_world_names": twnames,
-               "order": order, "mode": mode, "cval": cval, "data": data.tolist()}
+               "order": order, "mode": mode, "cval": cval, "data": data.tolist(), "source_layout": layout, "source_dtype": dtype}
         if it < 3:
             ck.sample({k: rep[k] for k in ("entry", "mapping_form", "source_affine", "target_affine", "mapping_affine", "order", "mode")})
         inv_ok = exact_inverse(S, Sinv)
@@ -389,17 +454,26 @@ def sec_resample(ck, T):
         if g2g and mode in LATTICE_MODES:
             exp, inb = lookup(data, N, tshape, cval)
             tol = 0.0 if order == 0 else 1e-9
+
+            def rerun_plain():
+                if form == "img2img":
+                    r2 = rmod.resample_img2img(Image(data.copy(), icm), Image(np.zeros(tshape), target), order=order, mode=mode, cval=cval)
+                else:
+                    r2 = rmod.resample(Image(data.copy(), icm), target, mapping, tshape, order=order, mode=mode, cval=cval)
+                o2 = np.asarray(r2.get_fdata())
+                return close(o2, exp, tol) if mode == "constant" else close(o2[inb], exp[inb], tol)
             if mode == "constant":
                 good = close(out, exp, tol) if tol else np.array_equal(out, exp)
                 if not good:
                     sub = "outside-not-cval" if close(out[inb], exp[inb]) else "lattice-value"
+                    sub += storage_suffix(layout, dtype, rerun_plain)
                     ck.fail("resample/tuple-int-matrix-fractional-offset" if frac_lost else
                             "grid-to-grid/%s/%s" % ("resample_img2img" if form == "img2img" else "resample", sub),
                             "grid-to-grid resampling (order %d, mode %s) differs from the looked-up source values" % (order, mode),
                             dict(rep, voxel_map=N.tolist(), got=out.tolist(), expected=exp.tolist()))
             elif not close(out[inb], exp[inb], tol):
                 ck.fail("resample/tuple-int-matrix-fractional-offset" if frac_lost else
-                        "grid-to-grid/%s/lattice-value" % ("resample_img2img" if form == "img2img" else "resample"),
+                        "grid-to-grid/%s/lattice-value%s" % ("resample_img2img" if form == "img2img" else "resample", storage_suffix(layout, dtype, rerun_plain)),
                         "grid-to-grid resampling (order %d, mode %s) differs from the looked-up source values at in-bounds points" % (order, mode),
                         dict(rep, voxel_map=N.tolist(), got=out.tolist(), expected=exp.tolist()))
     ck.section("resample", cases=ncase, exact_affine_cases=n_exact, exact_interpolator_points=n_interp)
@@ -450,6 +524,8 @@ def sec_linear(ck):
         idx = np.indices(sshape).reshape(n, -1)
         world = S[:n, :n] @ idx + S[:n, n:]
         data = (a @ world + c).reshape(sshape)
+        layout = str(rng.choice(LAYOUTS))
+        stored = relayout(data, layout)
         # choose the target so that most target voxels land inside the source: G = Tw^-1 S (small perturbation of identity voxel map)
         V = hom(np.eye(n) * rng.uniform(0.4, 0.9) + rng.normal(size=(n, n)) * 0.05, rng.uniform(0.2, 1.0, n))
         G = np.linalg.inv(Tw) @ S @ V
@@ -457,14 +533,14 @@ def sec_linear(ck):
         names = OUT_NAMES[:n]
         icm = AffineTransform(CS(IN_NAMES[:n], "voxels"), CS(names, "world"), S)
         target = AffineTransform(CS(IN_NAMES[:n], "tvox"), CS(names, "tworld"), G)
-        img = Image(data, icm)
+        img = Image(stored, icm)
         tidx = np.indices(tshape).reshape(n, -1)
         tw = Tw[:n, :n] @ (G[:n, :n] @ tidx + G[:n, n:]) + Tw[:n, n:]
         expect = (a @ tw + c).reshape(tshape)
         sv = np.linalg.solve(S[:n, :n], tw - S[:n, n:])
         inside = np.all((sv >= 1e-6) & (sv <= np.array(sshape)[:, None] - 1 - 1e-6), axis=0).reshape(tshape)
         rep = {"source_affine": S.tolist(), "mapping_affine": Tw.tolist(), "target_affine": G.tolist(), "field_a": a.tolist(),
-               "field_c": c, "source_shape": sshape, "target_shape": tshape}
+               "field_c": c, "source_shape": sshape, "target_shape": tshape, "source_layout": layout}
         ck.count(("linear", it, S.tobytes()), bucket="linear-field:%dD" % n)
         forms = {"tuple": (Tw[:n, :n], Tw[:n, n]), "matrix": Tw,
                  "affobj": AffineTransform(target.function_range, icm.function_range, Tw),
@@ -492,7 +568,7 @@ def sec_linear(ck):
                 if mv:
                     Tt = np.linalg.inv(S) @ Tt
                 rimg = guarded(ck, "linear-field/registration-resample", rep,
-                               lambda: rresample(make_xyz_image(data, S, "scanner"), Tt, reference=(tshape, G), mov_voxel_coords=mv,
+                               lambda: rresample(make_xyz_image(stored, S, "scanner"), Tt, reference=(tshape, G), mov_voxel_coords=mv,
                                                  ref_voxel_coords=rv, interp_order=1, mode="nearest"))
                 if rimg is None:
                     continue
@@ -515,10 +591,10 @@ def sec_interpolator(ck, T):
     for it in range(ncase):
         n = int(rng.choice([2, 3]))
         sshape = tuple(int(s) for s in rng.integers(3, 6, n))
-        data = rng.integers(-9, 10, sshape).astype(float)
+        data, stored, layout, dtype = draw_source(rng, sshape, plain=it < 6)
         S = rand_aff_exact(rng, n)
         icm = AffineTransform(CS(IN_NAMES[:n], "voxels"), CS(OUT_NAMES[:n], "world"), S)
-        img = Image(data, icm)
+        img = Image(stored, icm)
         order = int(rng.integers(0, 6))
         mode = str(rng.choice(list(MODES)))
         cval = float(rng.integers(-3, 4))
@@ -538,7 +614,7 @@ def sec_interpolator(ck, T):
             vals = interp.evaluate(pts)
         ck.count(("interp", S.tobytes(), order, mode, vox.tobytes()), bucket="interpolator:order%d" % order)
         rep = {"entry": "ImageInterpolator.evaluate", "source_affine": S.tolist(), "source_shape": sshape, "order": order, "mode": mode,
-               "cval": cval, "world_points": pts.T.tolist(), "data": data.tolist()}
+               "cval": cval, "world_points": pts.T.tolist(), "data": data.tolist(), "source_layout": layout, "source_dtype": dtype}
         pdata, coords, kw = log[0]
         pad = (pdata.shape[0] - sshape[0]) // 2
         T.add("prepad_agrees %d %s %d" % (order, MODES[mode], pad), "model-vs-impl/interpolator/prepad", "pre-pad width differs from the model", rep)
@@ -600,7 +676,7 @@ def sec_registration(ck, T):
     for it in range(ncase):
         sshape = tuple(int(s) for s in rng.integers(3, 7, 3))
         tshape = tuple(int(s) for s in rng.integers(2, 6, 3))
-        data = rng.integers(-9, 10, sshape).astype(float)
+        data, stored, layout, dtype = draw_source(rng, sshape, plain=it < 12)
         Ma = rand_aff_exact(rng, 3, shear=0.15)
         W = rand_aff_exact(rng, 3, shear=0.15) if rng.random() < 0.7 else np.eye(4)
         N = rand_voxmap(rng, 3, 3, sshape)
@@ -618,9 +694,10 @@ def sec_registration(ck, T):
         cval = 0.0 if rng.random() < 0.6 else float(rng.integers(1, 4)) * 0.5
         if rng.random() < 0.1:
             cval = 0
+        cval = int_cval(dtype, cval)
         tform = str(rng.choice(["array", "as_affine", "none" if (np.array_equal(Tt, np.eye(4))) else "array"]))
         transform = {"array": Tt, "as_affine": StubTransform(Tt), "none": None}[tform]
-        moving = make_xyz_image(data, Ma, "scanner")
+        moving = make_xyz_image(stored, Ma, "scanner")
         reference = (tshape, Ra) if rng.random() < 0.5 else make_xyz_image(np.zeros(tshape), Ra, "scanner")
         Mi = rr.inverse_affine(Ma)
         log = []
@@ -635,7 +712,7 @@ def sec_registration(ck, T):
             return real_at(input, matrix, offset=offset, **kw)
         rep = {"entry": "registration.resample", "moving_affine": Ma.tolist(), "reference_affine": Ra.tolist(), "transform": Tt.tolist(),
                "transform_form": tform, "ref_voxel_coords": rv, "mov_voxel_coords": mv, "moving_shape": sshape, "reference_shape": tshape,
-               "interp_order": order, "mode": mode, "cval": cval, "data": data.tolist()}
+               "interp_order": order, "mode": mode, "cval": cval, "data": data.tolist(), "source_layout": layout, "source_dtype": dtype}
         try:
             with patched(rr, "_cspline_resample3d", spy_cs), patched(rr, "affine_transform", spy_at):
                 res = rr.resample(moving, transform, reference=reference, mov_voxel_coords=mv, ref_voxel_coords=rv,
@@ -643,7 +720,10 @@ def sec_registration(ck, T):
         except Exception as e:  # noqa
             ck.fail("registration-resample/unexpected-exception", "registration resample raised %s: %s" % (type(e).__name__, e), rep)
             continue
-        ck.count(("reg", Ma.tobytes(), Ra.tobytes(), Tt.tobytes(), rv, mv, order, mode, cval),
+        ck.dist["storage:%s:%s" % (layout, dtype)] = ck.dist.get("storage:%s:%s" % (layout, dtype), 0) + 1
+        if not np.array_equal(stored, data):
+            ck.fail("registration-resample/mutates-moving-data", "registration resample changed the moving image's data array", rep)
+        ck.count(("reg", Ma.tobytes(), Ra.tobytes(), Tt.tobytes(), rv, mv, order, mode, cval, layout, dtype),
                  bucket="registration:%s:rv%d-mv%d" % ("shortcut" if log and log[0][0] == "cspline" else "generic", rv, mv))
         if it < 2:
             ck.sample({k: rep[k] for k in ("entry", "moving_affine", "reference_affine", "transform", "ref_voxel_coords", "mov_voxel_coords", "interp_order")})
@@ -670,21 +750,30 @@ def sec_registration(ck, T):
         out = np.asarray(res.get_fdata())
         if not np.array_equal(res.affine, Ra) or out.shape != tshape:
             ck.fail("registration-resample/output-affine", "result does not carry the reference affine / shape", rep)
+        if out.dtype != stored.dtype:
+            ck.fail("registration-resample/output-dtype", "dtype=None: result dtype %s is not the moving data's dtype %s" % (out.dtype, stored.dtype), rep)
         if g2g:
             exp, inb = lookup(data, N, tshape, cval)
             tol = 0.0 if order == 0 else 1e-9
+
+            def rerun_plain(transform=transform):
+                r2 = rr.resample(make_xyz_image(data.copy(), Ma, "scanner"), transform, reference=reference, mov_voxel_coords=mv,
+                                 ref_voxel_coords=rv, interp_order=order, mode=mode, cval=cval)
+                o2 = np.asarray(r2.get_fdata())
+                return close(o2, exp, tol) if mode == "constant" else close(o2[inb], exp[inb], tol)
             if mode == "constant":
                 if not (close(out, exp, tol) if tol else np.array_equal(out, exp)):
                     sub = "outside-not-cval" if close(out[inb], exp[inb]) else "lattice-value"
+                    sub += storage_suffix(layout, dtype, rerun_plain)
                     ck.fail("grid-to-grid/registration-resample/%s/%s" % ("shortcut" if used_short else "generic", sub),
                             "grid-to-grid registration resample (order %d) differs from the looked-up moving-image values" % order,
                             dict(rep, voxel_map=N.tolist(), got=out.tolist(), expected=exp.tolist()))
             elif not close(out[inb], exp[inb], tol):
-                ck.fail("grid-to-grid/registration-resample/generic/lattice-value",
+                ck.fail("grid-to-grid/registration-resample/generic/lattice-value" + storage_suffix(layout, dtype, rerun_plain),
                         "grid-to-grid registration resample (order %d, mode %s) differs at in-bounds points" % (order, mode),
                         dict(rep, voxel_map=N.tolist(), got=out.tolist(), expected=exp.tolist()))
             # non-affine transform path (apply/compose protocol) must give the same image
-            if it % 4 == 0:
+            if it % 3 == 0:
                 Tm = Tt.copy()
                 na = StubNonAffine([lambda xyz, Tm=Tm: xyz @ Tm[:3, :3].T + Tm[:3, 3]])
                 res2 = rr.resample(moving, na, reference=reference, mov_voxel_coords=mv, ref_voxel_coords=rv,
@@ -694,7 +783,11 @@ def sec_registration(ck, T):
                 # interpolate beyond the edge, so boundary voxels are excluded there
                 sel = interior_mask(data, N, tshape) if mode == "constant" else inb
                 if not close(out2[sel], exp[sel], 1e-7):
-                    ck.fail("grid-to-grid/registration-resample/non-affine-path",
+                    def rerun_na():
+                        r3 = rr.resample(make_xyz_image(data.copy(), Ma, "scanner"), na, reference=reference, mov_voxel_coords=mv,
+                                         ref_voxel_coords=rv, interp_order=order, mode=mode, cval=cval)
+                        return close(np.asarray(r3.get_fdata())[sel], exp[sel], 1e-7)
+                    ck.fail("grid-to-grid/registration-resample/non-affine-path" + storage_suffix(layout, dtype, rerun_na),
                             "non-affine (apply/compose) path differs from the looked-up moving-image values", dict(rep, voxel_map=N.tolist()))
     # fast path vs generic path on smooth data, interior points (both are cubic splines with mirror prefilter)
     nfp = ck.n(20, 150)
@@ -720,6 +813,44 @@ def sec_registration(ck, T):
     ck.section("registration", cases=ncase, exact_cases=nex, fast_vs_generic=nfp)
 
 
+# ================================================================== cubic-spline kernels vs source storage
+def sec_cspline_storage(ck):
+    """_cspline_transform / _cspline_sampleNd / _cspline_resample3d are handed whatever array the image holds:
+    (a) the coefficients do not depend on how the array is stored (layout x dtype), (b) sampling the coefficients at
+    the lattice points returns the array (any dimension 1..4), (c) resample3d with the identity returns it."""
+    from nipy.algorithms.registration import _registration as reg
+    rng = ck.rng("cspline-storage")
+    ncase = ck.n(120, 1200)
+    samplers = {1: reg._cspline_sample1d, 2: reg._cspline_sample2d, 3: reg._cspline_sample3d, 4: reg._cspline_sample4d}
+    for it in range(ncase):
+        nd = 1 + it % 4
+        shape = tuple(int(v) for v in rng.integers(3, 7 if nd < 4 else 5, nd))
+        values, stored, layout, dtype = draw_source(rng, shape, plain=it < 4)
+        rep = {"entry": "_cspline_transform", "shape": shape, "source_layout": layout, "source_dtype": dtype, "data": values.tolist()}
+        ck.count(("cspline", nd, layout, dtype, values.tobytes()), bucket="cspline-storage:%dD:%s" % (nd, layout))
+        ref = guarded(ck, "cspline-storage/transform", rep, lambda: reg._cspline_transform(values.copy()))
+        c = guarded(ck, "cspline-storage/transform", rep, lambda: reg._cspline_transform(stored))
+        if ref is None or c is None:
+            continue
+        if not np.array_equal(stored, values):
+            ck.fail("cspline-storage/mutates-input", "_cspline_transform changed its input", rep)
+        if c.shape != shape or not np.array_equal(c, ref):
+            ck.fail("cspline-storage/transform-depends-on-storage/%s" % ("layout" if dtype == "float64" else "dtype-or-layout"),
+                    "_cspline_transform of a %s %s array differs from that of the same values stored C-contiguous float64 (max %.3g)"
+                    % (layout, dtype, np.max(np.abs(c - ref)) if c.shape == ref.shape else float("nan")), rep)
+        grid = [g.astype(float) for g in np.indices(shape)]
+        back = guarded(ck, "cspline-storage/sample", rep, lambda: samplers[nd](np.zeros(shape), c, *grid))
+        if back is not None and not close(back, values, 1e-9):
+            ck.fail("cspline-storage/lattice-sample-%dD" % nd, "sampling the cubic-spline coefficients at the lattice points does not return the array (max %.3g)"
+                    % np.max(np.abs(back - values)), rep)
+        if nd == 3:
+            out = guarded(ck, "cspline-storage/resample3d", rep, lambda: reg._cspline_resample3d(np.zeros(shape), stored, shape, np.eye(4)))
+            if out is not None and not close(out, values, 1e-9):
+                ck.fail("cspline-storage/resample3d-identity", "_cspline_resample3d with the identity does not return the %s %s array (max %.3g)"
+                        % (layout, dtype, np.max(np.abs(out - values))), rep)
+    ck.section("cspline_storage", cases=ncase)
+
+
 # ================================================================== VolumeImg
 def sec_volumeimg(ck, T):
     import nipy.labs.datasets.volumes.volume_img as vi
@@ -731,7 +862,7 @@ def sec_volumeimg(ck, T):
     nex = 0
     for it in range(ncase):
         sshape = tuple(int(s) for s in rng.integers(3, 6, 3))
-        data = rng.integers(-9, 10, sshape).astype(float)
+        data, stored, layout, dtype = draw_source(rng, sshape, plain=it < 12)
         S = rand_aff_exact(rng, 3, shear=0.1) if it >= 6 else np.eye(4)
         kind = ["flip", "zoom", "shift", "perm", "same", "any"][it % 6]
         N = np.eye(4)
@@ -748,7 +879,7 @@ def sec_volumeimg(ck, T):
         G = tofloat(fmm(fmat(S), fmat(N)))
         tshape = tuple(int(s) for s in rng.integers(2, 5, 3))
         interp = "nearest" if rng.random() < 0.5 else "continuous"
-        img = VolumeImg(data, S, "world", interpolation=interp)
+        img = VolumeImg(stored, S, "world", interpolation=interp)
         log = []
         try:
             with patched(vi, "ndimage", NdimageProxy(real_ndimage, log)):
@@ -762,8 +893,8 @@ def sec_volumeimg(ck, T):
         A = Tm[:3, :3]
         isdiag = bool(np.all(np.diag(np.diag(A)) == A))
         rep = {"entry": "VolumeImg.as_volume_img", "self_affine": S.tolist(), "target_affine": G.tolist(), "voxel_map": N.tolist(),
-               "shape": sshape, "target_shape": tshape, "interpolation": interp, "data": data.tolist()}
-        ck.count(("avi", S.tobytes(), G.tobytes(), interp), nontrivial=not np.array_equal(N, np.eye(4)),
+               "shape": sshape, "target_shape": tshape, "interpolation": interp, "data": data.tolist(), "source_layout": layout, "source_dtype": dtype}
+        ck.count(("avi", layout, dtype, S.tobytes(), G.tobytes(), interp), nontrivial=not np.array_equal(N, np.eye(4)),
                  bucket="as_volume_img:%s" % ("diag" if isdiag else "full"))
         if len(log) != 1 or log[0][0] != "affine_transform":
             ck.fail("as_volume_img/sampler-calls", "expected exactly one affine_transform call", rep)
@@ -805,7 +936,7 @@ def sec_volumeimg(ck, T):
     nxyz = ck.n(240, 2000)
     for it in range(nxyz):
         sshape = tuple(int(s) for s in rng.integers(2, 6, 3))
-        data = rng.integers(-9, 10, sshape).astype(float)
+        data, stored, layout, dtype = draw_source(rng, sshape, plain=it < 16)
         signs = [(-1.0 if (it >> k) & 1 else 1.0) for k in range(3)]
         pix = np.array([s * (2.0 ** int(rng.integers(-1, 2)) if it >= 8 else 1.0) for s in signs])
         b = rng.integers(-6, 7, 3) * 0.5 if it >= 8 else np.zeros(3)
@@ -814,8 +945,8 @@ def sec_volumeimg(ck, T):
         for i in range(3):
             A[perm[i], i] = pix[i]
         S = hom(A, b)
-        img = VolumeImg(data, S, "world", interpolation="nearest")
-        rep = {"entry": "VolumeImg.xyz_ordered", "affine": S.tolist(), "shape": sshape, "data": data.tolist()}
+        img = VolumeImg(stored, S, "world", interpolation="nearest")
+        rep = {"entry": "VolumeImg.xyz_ordered", "affine": S.tolist(), "shape": sshape, "data": data.tolist(), "source_layout": layout, "source_dtype": dtype}
         ck.count(("xyz", S.tobytes(), sshape), nontrivial=bool(np.any(pix < 0) or np.any(perm != np.arange(3))),
                  bucket="xyz_ordered:flips=%d%s" % (int(np.sum(pix < 0)), ":perm" if np.any(perm != np.arange(3)) else ""))
         res = img.xyz_ordered()
@@ -883,7 +1014,7 @@ def sec_volumes_more(ck):
     for it in range(ncase):
         sshape = tuple(int(v) for v in rng.integers(3, 6, 3))
         extra = (2,) if it % 3 == 2 else ()
-        data = rng.integers(-9, 10, sshape + extra).astype(float)
+        data, stored, layout, dtype = draw_source(rng, sshape + extra, plain=it < 6)
         S = rand_aff_exact(rng, 3, shear=0.1) if it >= 4 else np.eye(4)
         N = rand_voxmap(rng, 3, 3, sshape)
         G = tofloat(fmm(fmat(S), fmat(N)))
@@ -892,10 +1023,10 @@ def sec_volumes_more(ck):
         tol = 0.0 if interp == "nearest" else 1e-9
         exp, inb = lookup_nd(data, N, tshape)
         rep = {"self_affine": S.tolist(), "target_affine": G.tolist(), "voxel_map": N.tolist(), "shape": list(sshape + extra),
-               "target_shape": tshape, "interpolation": interp, "data": data.tolist()}
-        ck.count(("volmore", S.tobytes(), G.tobytes(), interp, extra), bucket="volumes:%dD-data:%s" % (3 + len(extra), interp))
-        img = VolumeImg(data, S, "world", interpolation=interp)
-        grid = VolumeGrid(data, as_transform(S), interpolation=interp)
+               "target_shape": tshape, "interpolation": interp, "data": data.tolist(), "source_layout": layout, "source_dtype": dtype}
+        ck.count(("volmore", layout, dtype, S.tobytes(), G.tobytes(), interp, extra), bucket="volumes:%dD-data:%s" % (3 + len(extra), interp))
+        img = VolumeImg(stored, S, "world", interpolation=interp)
+        grid = VolumeGrid(stored, as_transform(S), interpolation=interp)
         tgt_img = VolumeImg(np.zeros(tshape), G, "world")
         tgt_grid = VolumeGrid(np.zeros(tshape), as_transform(G))
         calls = {
@@ -981,13 +1112,14 @@ def sec_realign(ck, T):
     for it in range(nid):
         shape = tuple(int(s) for s in rng.integers(5, 8, 3)) + (3,)
         data = rng.normal(size=shape)
+        layout = LAYOUTS[it % len(LAYOUTS)]
         aff = hom(np.diag(rng.uniform(1.0, 3.0, 3)), rng.normal(size=3) * 5)
-        im4d = gr.Image4d(data, aff, tr=2.0, slice_times=0, slice_info=(2, 1))
+        im4d = gr.Image4d(relayout(data, layout), aff, tr=2.0, slice_times=0, slice_info=(2, 1))
         res = gr.resample4d(im4d, [Rigid() for _ in range(shape[3])], time_interp=False)
         ck.count(("resample4d", it), bucket="realign4d:identity")
         if not close(res, data, 1e-8):
             ck.fail("realign4d/identity-does-not-reproduce-input", "resample4d with identity transforms and no time interpolation changes the data (max %.3g)"
-                    % np.max(np.abs(res - data)), {"shape": shape, "affine": aff.tolist()})
+                    % np.max(np.abs(res - data)), {"shape": shape, "affine": aff.tolist(), "source_layout": layout})
     # Realign4dAlgorithm.resample(t) on the working grid: identity transforms reproduce the input at the grid points;
     # a world translation by an integer number of voxels looks the shifted voxel up (interior points)
     nra = ck.n(6, 30)
@@ -996,12 +1128,14 @@ def sec_realign(ck, T):
         data = rng.normal(size=shape)
         aff = hom(np.diag(rng.uniform(1.0, 3.0, 3)) * np.array(rng.choice([-1, 1], 3)), rng.normal(size=3) * 5)
         sub = tuple(int(v) for v in rng.integers(1, 3, 3))
+        layout = LAYOUTS[(it + 2) % len(LAYOUTS)]
+        stored = relayout(data, layout)
         for time_interp in (False, True):
             ck.count(("realign-resample", it, time_interp), bucket="realign4d:resample-identity")
-            rep = {"shape": shape, "affine": aff.tolist(), "subsampling": sub, "time_interp": time_interp}
+            rep = {"shape": shape, "affine": aff.tolist(), "subsampling": sub, "time_interp": time_interp, "source_layout": layout}
 
             def run_id():
-                im4d = gr.Image4d(data, aff, tr=2.0, slice_times=0, slice_info=(2, 1))
+                im4d = gr.Image4d(stored, aff, tr=2.0, slice_times=0, slice_info=(2, 1))
                 r = gr.Realign4dAlgorithm(im4d, time_interp=time_interp, subsampling=sub)
                 for t in range(shape[3]):
                     r.resample(t)
@@ -1021,12 +1155,12 @@ def sec_realign(ck, T):
         vec[:3] = tw
 
         def run_shift():
-            im4d = gr.Image4d(data, aff, tr=2.0, slice_times=0, slice_info=(2, 1))
+            im4d = gr.Image4d(stored, aff, tr=2.0, slice_times=0, slice_info=(2, 1))
             r = gr.Realign4dAlgorithm(im4d, time_interp=False, transforms=[Rigid(vec) for _ in range(shape[3])], borders=(2, 2, 2))
             for t in range(shape[3]):
                 r.resample(t)
             return r
-        rep = {"shape": shape, "affine": aff.tolist(), "world_translation": tw.tolist()}
+        rep = {"shape": shape, "affine": aff.tolist(), "world_translation": tw.tolist(), "source_layout": layout}
         r = guarded(ck, "realign4d/resample-voxel-shift", rep, run_shift)
         ck.count(("realign-shift", it), bucket="realign4d:resample-voxel-shift")
         if r is not None:
@@ -1063,6 +1197,7 @@ def run(ck):
     timed("resample", sec_resample, ck, T)
     timed("interpolator", sec_interpolator, ck, T)
     timed("registration", sec_registration, ck, T)
+    timed("cspline_storage", sec_cspline_storage, ck)
     timed("volumeimg", sec_volumeimg, ck, T)
     timed("volumes_more", sec_volumes_more, ck)
     timed("realign4d", sec_realign, ck, T)
